@@ -23,6 +23,9 @@ theorem step_obs_agree (a b : St) (o : Op) (h : ∀ cell ∈ readsOf o, Agree ce
   | leaveDir =>
     have := h .dirs (by simp [readsOf]); simp only [Agree] at this
     simp only [step, this]; cases b.dirs <;> simp
+  | setSetting i v => simp [step]
+  | getSetting i =>
+    have := h (.setting i) (by simp [readsOf]); simp only [Agree] at this; simp [step, this]
 
 /-- a written cell is determined by the cells the operation reads -/
 theorem step_agree_written (a b : St) (o : Op) (h : ∀ cell ∈ readsOf o, Agree cell a b)
@@ -52,6 +55,9 @@ theorem step_agree_written (a b : St) (o : Op) (h : ∀ cell ∈ readsOf o, Agre
     simp only [Agree] at h1 h2
     simp only [writesOf, List.mem_cons, List.not_mem_nil, or_false] at hw
     rcases hw with hw | hw <;> subst hw <;> simp only [Agree, step, h2] <;> cases b.dirs <;> simp [h1, h2]
+  | setSetting i v =>
+    simp only [writesOf, List.mem_singleton] at hw; subst hw; simp [Agree, step]
+  | getSetting i => simp [writesOf] at hw
 
 /-- a cell the operation does not write keeps its value -/
 theorem step_unwritten (a : St) (o : Op) (cell : Cell) (hw : cell ∉ writesOf o) :
@@ -71,6 +77,13 @@ theorem step_unwritten (a : St) (o : Op) (cell : Cell) (hw : cell ∉ writesOf o
   | enterDir d => cases cell <;> simp_all [Agree, step, writesOf]
   | leaveDir =>
     cases cell <;> simp_all [Agree, step, writesOf] <;> cases a.dirs <;> simp
+  | setSetting i v =>
+    cases cell with
+    | setting j =>
+      have : j ≠ i := by intro e; apply hw; simp [writesOf, e]
+      simp [Agree, step, this]
+    | _ => simp [Agree, step]
+  | getSetting i => cases cell <;> simp [Agree, step]
 
 theorem Agree.symm' {cell : Cell} {a b : St} (h : Agree cell a b) : Agree cell b a := by
   cases cell <;> simp_all [Agree]
@@ -168,6 +181,8 @@ theorem consistent_step (F : CacheId → Key → Val) (P : CacheId → Key → B
     cases hd : st.dirs with
     | nil => simp only [hd] at he; exact hc c' e he hP
     | cons s r => simp only [hd] at he; exact hc c' e he hP
+  | setSetting i v => exact hc
+  | getSetting i => exact hc
 
 theorem consistent_run (F : CacheId → Key → Val) (P : CacheId → Key → Bool) (p : Prog) (ht : Tame F P p) :
     ∀ st : St, Consistent F P st.proc → Consistent F P (run st p).st.proc := by
@@ -201,6 +216,7 @@ theorem Det.tame {F : CacheId → Key → Val} {P : CacheId → Key → Bool} {V
   | getHistory _ ih => exact .other (by intro c k v e; cases e) ih
   | enterDir _ ih => exact .other (by intro c k v e; cases e) ih
   | leaveDir _ ih => exact .other (by intro c k v e; cases e) ih
+  | getSetting _ ih => exact .other (by intro c k v e; cases e) ih
 
 /-- with consistent caches a lookup of a `P`-key returns, seen through the view, `F c k` — hit or miss -/
 theorem lookup_consistent_value (F : CacheId → Key → Val) (P : CacheId → Key → Bool) (V : CacheId → Val → Val)
@@ -215,17 +231,18 @@ theorem lookup_consistent_value (F : CacheId → Key → Val) (P : CacheId → K
 theorem det_core (F : CacheId → Key → Val) (P : CacheId → Key → Bool) (V : CacheId → Val → Val)
     (hcomp : Compat F P V) {h : Bool} {p : Prog} (hd : Det F P V h p) :
     ∀ a b : St, Consistent F P a.proc → Consistent F P b.proc → a.dirs.length = b.dirs.length →
-      (h = true → a.proc.history = b.proc.history) → (run a p).out = (run b p).out := by
+      (h = true → a.proc.history = b.proc.history) → a.proc.settings = b.proc.settings →
+      (run a p).out = (run b p).out := by
   induction hd with
-  | done => intro a b _ _ _ _; rfl
-  | fail => intro a b _ _ _ _; rfl
+  | done => intro a b _ _ _ _ _; rfl
+  | fail => intro a b _ _ _ _ _; rfl
   | emit _ ih =>
-    intro a b ha hb hl hh
-    have := ih a b ha hb hl hh
+    intro a b ha hb hl hh hs
+    have := ih a b ha hb hl hh hs
     simp only [run, Result.out, Prod.mk.injEq] at this ⊢
     exact ⟨by rw [this.1], this.2⟩
   | @lookup h c k v kont hP hv hinv hk ih =>
-    intro a b ha hb hl hh
+    intro a b ha hb hl hh hs
     subst hv
     have ea := lookup_consistent_value F P V hcomp a.proc ha c k hP
     have eb := lookup_consistent_value F P V hcomp b.proc hb c k hP
@@ -237,35 +254,38 @@ theorem det_core (F : CacheId → Key → Val) (P : CacheId → Key → Bool) (V
     · exact consistent_step F P b (.lookup c k (F c k)) hb (by intro c' k' v' e _; cases e; rfl)
     · exact hl
     · intro e; simpa [Proc.setCache] using hh e
+    · simpa [Proc.setCache] using hs
   | setHistory hk ih =>
-    intro a b ha hb hl hh
+    intro a b ha hb hl hh hs
     simp only [run, step]
     apply ih
     · exact ha
     · exact hb
     · exact hl
     · intro _; rfl
+    · exact hs
   | getHistory hk ih =>
-    intro a b ha hb hl hh
+    intro a b ha hb hl hh hs
     simp only [run, step, hh rfl]
-    exact ih _ a b ha hb hl hh
+    exact ih _ a b ha hb hl hh hs
   | enterDir hk ih =>
-    intro a b ha hb hl hh
+    intro a b ha hb hl hh hs
     simp only [run, step]
     apply ih
     · exact ha
     · exact hb
     · simp [hl]
     · exact hh
+    · exact hs
   | leaveDir hk ih =>
-    intro a b ha hb hl hh
+    intro a b ha hb hl hh hs
     simp only [run, step]
     cases hda : a.dirs with
     | nil =>
       have hdb : b.dirs = [] := by
         rw [hda] at hl; exact List.length_eq_zero_iff.mp hl.symm
       simp only [hdb]
-      exact ih _ a b ha hb (by rw [hda, hdb]) hh
+      exact ih _ a b ha hb (by rw [hda, hdb]) hh hs
     | cons s r =>
       cases hdb : b.dirs with
       | nil => rw [hda, hdb] at hl; simp at hl
@@ -276,6 +296,33 @@ theorem det_core (F : CacheId → Key → Val) (P : CacheId → Key → Bool) (V
         · exact hb
         · rw [hda, hdb] at hl; simpa using hl
         · exact hh
+        · exact hs
+  | getSetting hk ih =>
+    intro a b ha hb hl hh hs
+    simp only [run, step, hs]
+    exact ih _ a b ha hb hl hh hs
+
+/-- a run that contains no setter leaves every process-wide setting as it was -/
+theorem settings_kept {p : Prog} (hk : KeepsSettings p) : ∀ st : St, (run st p).st.proc.settings = st.proc.settings := by
+  induction hk with
+  | done => intro st; rfl
+  | fail => intro st; rfl
+  | emit _ ih => intro st; simpa [run] using ih st
+  | @op o kont hne _ ih =>
+    intro st
+    simp only [run]
+    rw [ih]
+    cases o with
+    | setSetting i v => exact absurd rfl (hne i v)
+    | leaveDir => simp only [step]; cases st.dirs <;> rfl
+    | lookup c k v => simp [step, Proc.setCache]
+    | newGenerator => rfl
+    | draw v => rfl
+    | clock v => rfl
+    | setHistory n => rfl
+    | getHistory => rfl
+    | enterDir d => rfl
+    | getSetting i => rfl
 
 /-- the identity view: every continuation is invariant -/
 theorem Obs.view_id (o : Obs) : o.view id = o := by cases o <;> rfl
@@ -339,6 +386,8 @@ theorem step_base (st : St) (o : Op) : base (step st o).1 = base st := by
   | clock v => rfl
   | setHistory n => rfl
   | getHistory => rfl
+  | setSetting i v => rfl
+  | getSetting i => rfl
 
 theorem run_base (p : Prog) : ∀ st : St, base (run st p).st = base st := by
   induction p with
@@ -374,5 +423,7 @@ theorem bal_dirs {n : Nat} {p : Prog} (hb : Bal n p) :
     | clock v => simpa [step] using h
     | setHistory m => simpa [step] using h
     | getHistory => simpa [step] using h
+    | setSetting i v => simpa [step] using h
+    | getSetting i => simpa [step] using h
 
 end SnowModel.Proc
